@@ -267,6 +267,9 @@ func VerifC12Crash(h *verifh.H) {
 		h.Assert(os.WriteFile(file, b, 0o644) == nil, "observation saved")
 		strategy := &deduplicationStrategy{counts: make(map[string]int), changeBuffer: make(map[[24]byte]byte), flushAfter: thr}
 		worker := NewCompactor(hub.Store, hub.Dsm, hub.Env.Logger)
+		if h.Param("commitPoints", 0) == 1 {
+			h.CrashAtCommits()
+		}
 		h.CrashWindowStart()
 		h.Assert(worker.compact("d", strategy) == nil, "compaction succeeds")
 	}
@@ -356,6 +359,7 @@ func VerifC12Race(h *verifh.H) {
 	worker := NewCompactor(hub.Store, hub.Dsm, hub.Env.Logger)
 	var cerr, werr error
 	h.SymbolicLocks() // also preempt before every lock acquisition (the flush takes the dataset lock)
+	h.SymbolicTxns() // every Badger transaction start of /repo code is a scheduling point too
 	h.SymbolicSched(h.Param("preemptions", 2))
 	h.Go(func() { cerr = worker.compact("d", strategy) })
 	h.Go(func() { werr = ds.StoreEntities([]*server.Entity{vMk("ns0:e1", w)}) })
